@@ -365,6 +365,25 @@ def gen_spec(rng, n_items=(4, 14), p_dist=0.5, p_transient=0.3, p_vec=0.35, seed
                 items.append({"k": "value", "name": f"{NP}{idx}", "val": draw_value(rng, "real", shape), "vk": "real", "shape": shape})
         else:
             items.append({"k": "value", "name": f"{NP}{idx}", "val": draw_value(rng, "real", shape), "vk": "real", "shape": shape})
+    # A seeded node has no value before the model is built (its seed input is wired by the
+    # builder), and GraphBuilder.add() reads the value of every node, computing transient nodes on
+    # the fly: a transient descendant of a seeded node makes add() itself raise.  Such programs
+    # cannot be handed to the builder at all, so the generator does not produce them.
+    desc_of: dict[int, set] = {}
+    for i, it in enumerate(items):
+        for r in item_refs(it):
+            if "i" in r:
+                desc_of.setdefault(r["i"], set()).add(i)
+    for i, it in enumerate(items):
+        if it["k"] == "calc" and it.get("seeded"):
+            seen, stack = set(), [i]
+            while stack:
+                for j in desc_of.get(stack.pop(), ()):
+                    if j not in seen:
+                        seen.add(j)
+                        stack.append(j)
+            if any(items[j]["k"] in ("ident", "igroup") or items[j].get("mode") == "transient" or (items[j].get("dist") or {}).get("transient") for j in seen):
+                it["seeded"], it["fn"] = False, "lin"
     return items
 
 
